@@ -2,7 +2,7 @@
 (* Universe U2: a, index i, attribute container e{p,q}, list l[0..1]; computed key l[i].                  *)
 (* Bound by harness/mgrlib.py: "e.p" -> s['e'].p, "l.0" -> s['l'][0], Dyn("l", Ref("i")) -> s['l'][s['i']] *)
 EXTENDS Integers, Sequences, FiniteSets, TLC, Json
-CONSTANTS Faults, Extras, MaxDepth, EmitIdx
+CONSTANTS Faults, Extras, Transfers, MaxDepth, EmitIdx
 VARIABLES mem, defs, reg, kprev, frozen, ghost, last, depth
 
 cLeaf == {"a", "i", "e.p", "e.q", "l.0", "l.1"}
@@ -26,7 +26,7 @@ cTaskSpec == [t \in {"F1", "K1"} |->
    IF t = "F1" THEN [kind |-> "fn", deps |-> {"e.p", "l.0"}, targets |-> {"a"}, out |-> "a", ins |-> <<"e.p", "l.0">>]
    ELSE [kind |-> "knob", src |-> "a", deps |-> {"a"}, targets |-> {"e.q", "l.1"}, tl |-> <<"e.q", "l.1">>, w |-> <<2, 3>>]]
 
-INSTANCE Manager WITH Loc <- cLoc, Leaf <- cLeaf, Par <- cPar, ValsOf <- cValsOf, InitMem <- cInitMem,
+INSTANCE Manager WITH KeepLoc <- "e.q", KeepExpr <- B("+", R("a"), L(1)), Loc <- cLoc, Leaf <- cLeaf, Par <- cPar, ValsOf <- cValsOf, InitMem <- cInitMem,
    Menu <- cMenu, ExprTargets <- cLeaf \ {"i"}, TaskSpec <- cTaskSpec, IpOps <- {"+", "-"}, IpArgs <- {3}
 
 ASSUME PrintT(ToJson(<<"INIT", <<cInitMem, [x \in cLeaf |-> NoDef], {}, [t \in DOMAIN cTaskSpec |-> 0], FALSE, {}>>>>))
